@@ -50,6 +50,7 @@ type HandlerObs struct {
 	RoutingKey string
 	RoutingDelegate string
 	HasDeadline bool
+	RemainingAtEntry time.Duration // ctx deadline minus handler entry time
 	Deadline   time.Duration // relative to run start
 	Arg2OK, Arg3OK bool
 	ArgsRead   bool // the handler read both arguments to the end without error
@@ -493,7 +494,8 @@ func (h *echoHandler) Handle(ctx context.Context, call *tchannel.InboundCall) {
 	obs.RoutingDelegate = call.RoutingDelegate()
 	if dl, ok := ctx.Deadline(); ok {
 		obs.HasDeadline = true
-		obs.Deadline = enterAt + time.Until(dl)
+		obs.Deadline = simrt.Elapsed() + time.Until(dl) // both read at the same instant (reading arg2 above may have taken simulated time)
+		obs.RemainingAtEntry = time.Until(dl) + (simrt.Elapsed() - enterAt)
 	}
 	tag := "?"
 	if cmd != nil {
